@@ -780,7 +780,15 @@ class DateTime(datetime.datetime, Date):
         if unit not in self._MODIFIERS_VALID_UNITS:
             raise ValueError(f'Invalid unit "{unit}" for start_of()')
 
-        return cast("Self", getattr(self, f"_start_of_{unit}")())
+        if unit in ("second", "minute", "hour"):
+            return cast("Self", getattr(self, f"_start_of_{unit}")())
+
+        # The start of a day (or of a larger unit) does not depend on the fold
+        # of the instance: a skipped boundary is resolved forward,
+        # a repeated one to its first occurrence.
+        dt = getattr(self.replace(fold=1), f"_start_of_{unit}")()
+
+        return cast("Self", dt.replace(fold=0))
 
     def end_of(self, unit: str) -> Self:
         """
@@ -800,7 +808,15 @@ class DateTime(datetime.datetime, Date):
         if unit not in self._MODIFIERS_VALID_UNITS:
             raise ValueError(f'Invalid unit "{unit}" for end_of()')
 
-        return cast("Self", getattr(self, f"_end_of_{unit}")())
+        if unit in ("second", "minute", "hour"):
+            return cast("Self", getattr(self, f"_end_of_{unit}")())
+
+        # The end of a day (or of a larger unit) does not depend on the fold
+        # of the instance: a skipped boundary is resolved backward,
+        # a repeated one to its last occurrence.
+        dt = getattr(self.replace(fold=0), f"_end_of_{unit}")()
+
+        return cast("Self", dt.replace(fold=1))
 
     def _start_of_second(self) -> Self:
         """
